@@ -17,6 +17,13 @@ import (
 // C16: builder histories (spec/ZogBuild.tla) executed on the public API
 // ---------------------------------------------------------------------------
 
+// one argument of Pick / Omit: a string (On = [key]) or a map[string]bool (keys flagged true / false)
+type bArg struct {
+	Str bool     `json:"str"`
+	On  []string `json:"on"`
+	Off []string `json:"off"`
+}
+
 type bOp struct {
 	E    string   `json:"e"`
 	Op   string   `json:"op"`
@@ -24,6 +31,56 @@ type bOp struct {
 	O    int      `json:"o"`
 	O2   int      `json:"o2"`
 	Keys []string `json:"keys"`
+	Args []bArg   `json:"args"`
+}
+
+func goArgs(op bOp) []any {
+	if len(op.Args) == 0 {
+		ks := make([]any, len(op.Keys))
+		for i, k := range op.Keys {
+			ks[i] = k
+		}
+		return ks
+	}
+	out := []any{}
+	for _, a := range op.Args {
+		if a.Str {
+			out = append(out, a.On[0])
+			continue
+		}
+		m := map[string]bool{}
+		for _, k := range a.On {
+			m[k] = true
+		}
+		for _, k := range a.Off {
+			m[k] = false
+		}
+		out = append(out, m)
+	}
+	return out
+}
+
+// the ways of saying "these keys" with strings and flag maps
+func argForms(ks []string, all []string) [][]bArg {
+	rest := []string{}
+	for _, k := range all {
+		in := false
+		for _, x := range ks {
+			in = in || x == k
+		}
+		if !in {
+			rest = append(rest, k)
+		}
+	}
+	strs := []bArg{}
+	for _, k := range ks {
+		strs = append(strs, bArg{Str: true, On: []string{k}, Off: []string{}})
+	}
+	return [][]bArg{
+		{{On: ks, Off: rest}}, // one map: the keys true, the others false
+		append(append([]bArg{}, strs...), bArg{On: []string{}, Off: ks}), // strings, then a map flagging the same keys false
+		{{On: ks, Off: []string{}}, {On: []string{}, Off: ks}},           // two maps: true, then false
+	}
 }
 
 type bNew struct {
@@ -40,6 +97,7 @@ type bObs struct {
 	Fields map[string]int `json:"fields"`
 	Tests  []int          `json:"tests"`
 	Pts    []int          `json:"pts"`
+	Panic  string         `json:"panic"` // the library panicked while the schema was derived or used
 }
 
 type bRec struct {
@@ -81,8 +139,14 @@ func bPT(id int) z.PostTransform {
 
 var keyIdx = map[string]int{"a": 1, "b": 2, "c": 3}
 
-func observe(s *z.StructSchema, idx int, mode string) bObs {
+func observe(s *z.StructSchema, idx int, mode string) (o bObs) {
 	rec := &bRec{fields: map[string]int{}, tests: []int{}, pts: []int{}}
+	defer func() {
+		if p := recover(); p != nil {
+			bcur = nil
+			o = bObs{E: "obs", S: idx, Mode: mode, Fields: rec.fields, Tests: rec.tests, Pts: rec.pts, Panic: fmt.Sprint(p)}
+		}
+	}()
 	bcur = rec
 	d := bDest{A: 1, B: 1, C: 1}
 	if mode == "parse" {
@@ -112,6 +176,9 @@ func runEpisode(w *bufio.Writer, id string, ep bEpisode) (lines int) {
 		sch[k] = bField(k, keyIdx[k])
 	}
 	base := z.Struct(sch)
+	if len(ep.keys) == 0 {
+		base = z.Struct(nil) // a nil field map, not merely an empty one
+	}
 	for i := 1; i <= ep.ntests; i++ {
 		base.Test(bTest(10 + i))
 	}
@@ -127,38 +194,52 @@ func runEpisode(w *bufio.Writer, id string, ep bEpisode) (lines int) {
 	next := 20
 	for _, op := range ep.ops {
 		s := all[op.S-1]
-		ks := make([]any, len(op.Keys))
-		for i, k := range op.Keys {
-			ks[i] = k
-		}
-		switch op.Op {
-		case "test":
-			s.Test(bTest(next))
-			next++
-		case "pt":
-			s.PostTransform(bPT(next))
-			next++
-		case "pick":
-			all = append(all, s.Pick(ks...))
-		case "omit":
-			all = append(all, s.Omit(ks...))
-		case "extend":
-			ext := z.Schema{}
-			for _, k := range op.Keys {
-				ext[k] = bField(k, next+keyIdx[k])
+		ks := goArgs(op)
+		before := len(all)
+		perr := ""
+		func() {
+			defer func() {
+				if p := recover(); p != nil {
+					perr = fmt.Sprint(p)
+				}
+			}()
+			switch op.Op {
+			case "test":
+				s.Test(bTest(next))
+				next++
+			case "pt":
+				s.PostTransform(bPT(next))
+				next++
+			case "pick":
+				all = append(all, s.Pick(ks...))
+			case "omit":
+				all = append(all, s.Omit(ks...))
+			case "extend":
+				ext := z.Schema{}
+				for _, k := range op.Keys {
+					ext[k] = bField(k, next+keyIdx[k])
+				}
+				all = append(all, s.Extend(ext))
+				next += 4
+			case "merge":
+				all = append(all, s.Merge(all[op.O-1]))
+			case "merge3": // one Merge call with two operands: a.Merge(b, c)
+				all = append(all, s.Merge(all[op.O-1], all[op.O2-1]))
 			}
-			all = append(all, s.Extend(ext))
-			next += 4
-		case "merge":
-			all = append(all, s.Merge(all[op.O-1]))
-		case "merge3": // one Merge call with two operands: a.Merge(b, c)
-			all = append(all, s.Merge(all[op.O-1], all[op.O2-1]))
-		}
+		}()
 		op.E = "op"
 		if op.Keys == nil {
 			op.Keys = []string{}
 		}
+		if op.Args == nil {
+			op.Args = []bArg{}
+		}
 		emit(op)
+		if perr != "" {
+			// the derivation itself panicked: reported against the schema it should have produced; the episode ends here
+			emit(bObs{E: "obs", S: before + 1, Mode: "derive", Fields: map[string]int{}, Tests: []int{}, Pts: []int{}, Panic: perr})
+			return
+		}
 		obsAll()
 	}
 	return
@@ -178,6 +259,9 @@ func subsets(keys []string) [][]string {
 	return out
 }
 
+// also enumerate the argument forms of Pick / Omit (strings, flag maps, mixtures)
+var argVariants = true
+
 // every operation applicable in a state with n schemas whose field sets are given
 func applicable(fields [][]string) []bOp {
 	ops := []bOp{}
@@ -186,9 +270,19 @@ func applicable(fields [][]string) []bOp {
 		ops = append(ops, bOp{Op: "test", S: s}, bOp{Op: "pt", S: s})
 		for _, ks := range subsets(fields[s-1]) {
 			ops = append(ops, bOp{Op: "pick", S: s, Keys: ks})
+			if argVariants {
+				for _, af := range argForms(ks, fields[s-1]) {
+					ops = append(ops, bOp{Op: "pick", S: s, Keys: ks, Args: af})
+				}
+			}
 		}
 		for _, ks := range subsets(all) {
 			ops = append(ops, bOp{Op: "omit", S: s, Keys: ks}, bOp{Op: "extend", S: s, Keys: ks})
+			if argVariants && len(ks) == 1 {
+				for _, af := range argForms(ks, all) {
+					ops = append(ops, bOp{Op: "omit", S: s, Keys: ks, Args: af})
+				}
+			}
 		}
 		for o := 1; o <= len(fields); o++ {
 			ops = append(ops, bOp{Op: "merge", S: s, O: o})
@@ -316,9 +410,15 @@ func cmdBuild(args []string) {
 			keys := []string{"a", "b"}
 			rec(nt, keys, [][]string{keys}, nil, *exh)
 		}
+		// a base built from a nil field map, then everything that can be derived from it
+		argVariants = false
+		for nt := 0; nt <= 1; nt++ {
+			rec(nt, []string{}, [][]string{{}}, nil, *exh)
+		}
+		argVariants = true
 	}
 	for i := 0; i < *nrand; i++ {
-		keys := subsets([]string{"a", "b", "c"})[r.Intn(7)]
+		keys := append(subsets([]string{"a", "b", "c"}), []string{})[r.Intn(8)]
 		fields := [][]string{keys}
 		ops := []bOp{}
 		n := 2 + r.Intn(*maxlen-1)
